@@ -674,6 +674,7 @@ def check(rep):
                 'with a foreign frame interleaved} x ending {RPC time-out, Channel.Close, transport error} x reader eagerness 0..n x consumer '
                 'guard; COSIM: the same outcomes through the real reader thread and the reference broker (truncate at each stage, then '
                 'silence / channel close / socket death) under random schedules; distinct = distinct scripts; non-trivial = not GetEmpty')
+    rep.rule += '; SEQ gets use the keyword variants {default, to_dict, auto_decode=False, no_ack}; guard histories add consumers and a consume whose ConsumeOk arrives after its time-out'
     rep.assumptions = [
         'a time-out means the withheld frames never arrive later (a late frame is indistinguishable from the next reply)',
         'arrival scripts are prefixes of well-formed replies (plus foreign frames); a broker sending GetOk followed by a non-header frame is outside the model',
